@@ -650,7 +650,9 @@ func c08CLICases(inj []c08Inj, thorough bool) []c08CLICase {
 		}
 	}
 	// malformed command lines
-	for _, a := range [][]string{{}, {"-f", "nope", "in.json"}, {"missing.json"}, {"in.ini"}, {"-o", "/nonexistent-dir/x.json", "in.json"}, {"--bogus"}, {"in.json", "missing.yaml"}} {
+	for _, a := range [][]string{{}, {"-f", "nope", "in.json"}, {"missing.json"}, {"in.ini"}, {"-o", "/nonexistent-dir/x.json", "in.json"}, {"--bogus"}, {"in.json", "missing.yaml"},
+		{"-f", "", "in.json"}, {"-f", "json", "-f", "yaml", "in.json"}, {"-o", "", "in.json"}, {"-r", "", "in.json"}, {"-r", "/nonexistent-root", "in.json"}, {"in.json", "-P", "-P"},
+		{"--", "in.json"}, {"--", "-f"}, {"-"}, {"-.json"}, {"in.json", "-o"}, {"-f"}, {"in.json", "in.json"}, {"./in.json", "in.json"}, {"-o", "in.json", "in.json"}, {""}, {" "}, {"in.json", ""}} {
 		for _, t := range []string{"bkl", "bkld", "bkli", "bklr"} {
 			out = append(out, c08CLICase{Tool: t, Files: map[string]string{"in.json": "{\"a\": 1}\n", "in.ini": "a=1\n"}, Args: a})
 		}
